@@ -41,14 +41,18 @@ pub struct Case {
     pub extras: u8,
     pub flags: (bool, u8, Option<u64>),
     pub sched: Option<RunCfg>,
+    /// further options combined with -n: backup 0 none / 1 numbered / 2 auto (with an older backup present),
+    /// bit 2: --no-perms, bit 3: --fsync
+    #[serde(default)]
+    pub extra_opts: u8,
 }
 
 pub fn strategy() -> BoxedStrategy<Case> {
     let src = (prop_oneof![5 => Just(0u8), 2 => Just(1u8), 1 => Just(2u8), 1 => Just(3u8), 3 => Just(4u8)], prop_oneof![4 => 0u32..3000, 1 => 100000u32..600000], prop::collection::vec(gent(TOP_SAFE, true), 1..8))
         .prop_map(|(kind, len, children)| Src { kind, len, children });
     let col = (any::<u16>(), 0u8..6, prop::bool::weighted(0.7)).prop_map(|(which, dest_kind, top)| Collision { which, dest_kind, top });
-    (prop::collection::vec(src, 1..5), prop::collection::vec(col, 0..3), 0u8..4, common_flags(), prop::option::weighted(0.17, super::c06::run_cfg()))
-        .prop_map(|(srcs, collisions, extras, flags, sched)| Case { srcs, collisions, extras, flags, sched })
+    (prop::collection::vec(src, 1..5), prop::collection::vec(col, 0..3), 0u8..4, common_flags(), prop::option::weighted(0.17, super::c06::run_cfg()), prop_oneof![3 => Just(0u8), 2 => 0u8..16])
+        .prop_map(|(srcs, collisions, extras, flags, sched, extra_opts)| Case { srcs, collisions, extras, flags, sched, extra_opts })
         .boxed()
 }
 
@@ -59,6 +63,13 @@ pub fn build(c: &Case, root: &[u8]) -> (Vec<Ent>, Inv, usize) {
     apply_common(&mut inv, c.flags);
     inv.no_clobber = true;
     inv.dest = b"d".to_vec();
+    inv.backup = match c.extra_opts & 3 {
+        1 => "numbered".into(),
+        2 => "auto".into(),
+        _ => String::new(),
+    };
+    inv.no_perms = c.extra_opts & 4 != 0;
+    inv.fsync = c.extra_opts & 8 != 0;
     let mut tops: Vec<(Vec<u8>, Vec<u8>)> = vec![]; // (src path, dst path)
     let mut below: Vec<(Vec<u8>, Vec<u8>)> = vec![];
     for (i, s) in c.srcs.iter().enumerate() {
@@ -99,6 +110,12 @@ pub fn build(c: &Case, root: &[u8]) -> (Vec<Ent>, Inv, usize) {
         }
         made.push(dst.clone());
         ncoll += 1;
+        if c.extra_opts & 3 == 2 && col.dest_kind % 6 == 0 {
+            // auto mode only backs up when an older backup exists
+            let mut b = dst.clone();
+            b.extend_from_slice(b".~3~");
+            ents.push(Ent::file(&b, Content::data(5, 41)));
+        }
         let e = match col.dest_kind % 6 {
             0 => Ent::file(dst, Content::data(41, 40)).with_mode(0o640).with_mtime(1_200_000_000, 77),
             1 => Ent::dir(dst),
@@ -168,6 +185,9 @@ pub fn judge(c: &Case, rec: &mut Rec) -> Verdict {
         None => "-",
     };
     let shadowed = !colliding.is_empty() && colliding.iter().all(|m| !m.top);
+    if !inv.backup.is_empty() {
+        rec.class(format!("with-backup={}", inv.backup));
+    }
     let key = format!("{}|{}|{}|{}|{}|exit={}", driver, pair, if shadowed { "deep" } else { "top" }, pos, if c.sched.is_some() { "scheduled" } else { "plain" }, if ok { "0" } else { "!0" });
     let new = rec.class(key);
     rec.class(format!("sched|{}", sched_name.split('(').next().unwrap_or("")));
@@ -255,6 +275,6 @@ impl Check for C08 {
         }
     }
     fn required_classes(&self, _tier: Tier) -> Vec<String> {
-        ["F->F", "F->L(dangling)", "L->", "Fifo->", "Sock->", "->D", "|late|", "|early|", "|deep|", "scheduled", "sched|WorkersFirst"].iter().map(|s| s.to_string()).collect()
+        ["F->F", "F->L(dangling)", "L->", "Fifo->", "Sock->", "->D", "|late|", "|early|", "|deep|", "scheduled", "sched|WorkersFirst", "with-backup=numbered", "with-backup=auto"].iter().map(|s| s.to_string()).collect()
     }
 }
